@@ -35,14 +35,16 @@ class SelectorWorld:
                'n0': rng.randint(1, 4),
                'allow_None': rng.random() < 0.3,
                'watch': rng.random() < 0.7,
-               'hold': rng.random() < 0.4}
+               'hold': rng.random() < 0.4,
+               'unchecked': rng.random() < 0.25}
         n_ops = min(60 if big else 30, 2 + int(rng.expovariate(1 / (14.0 if big else 8.0))))
         ops = []
         style = cfg['style']
         for _ in range(n_ops):
             if style == 'list':
                 k = weighted(rng, [('setitem', 3), ('append', 3), ('insert', 2), ('extend', 2), ('pop', 3), ('poplast', 1),
-                                   ('remove', 2), ('clear', 0.5), ('replace', 1), ('assign', 3), ('assign_absent', 1)])
+                                   ('remove', 2), ('clear', 0.5), ('replace', 1), ('assign', 3), ('assign_absent', 1),
+                                   ('assign_new', 2 if cfg['unchecked'] else 0)])
             else:
                 k = weighted(rng, [('setkey', 3), ('newkey', 3), ('update', 2), ('popkey', 3), ('pop', 1.5), ('remove', 2), ('clear', 0.5),
                                    ('replace', 1), ('assign', 3), ('assign_absent', 1)])
@@ -94,7 +96,10 @@ class SelectorWorld:
             items.append((key() if style == 'dict' else str(o), o))
         decl = dict(items) if style == 'dict' else [o for _, o in items]
         P = getattr(param, cfg['kind'])
+        unchecked = bool(cfg.get('unchecked')) and style == 'list'
         kw = {'objects': decl, 'allow_None': cfg['allow_None']}
+        if unchecked:
+            kw['check_on_set'] = False          # unknown values are added to the objects instead of being rejected
         if cfg['kind'] == 'ListSelector':
             kw['default'] = [items[0][1]]
         C = type('S', (param.Parameterized,), {'sel': P(**kw)})
@@ -102,13 +107,28 @@ class SelectorWorld:
         holder = C if cfg['level'] == 'class' else inst
         pobj = holder.param['sel'] if cfg['level'] == 'instance' else C.param['sel']
         notes = []
+        notes_changed = []
+        inconsistent = []
         if cfg['watch']:
             def cb(*events):
                 notes.append(len(events))
+                # at notification time the views must already agree with each other and with the event
+                lst = list(pobj.objects)
+                rng_ = list(pobj.get_range().values())
+                nm = list(pobj.names.values())
+                ev_new = events[-1].new
+                ev_objs = list(ev_new.values()) if isinstance(ev_new, dict) else list(ev_new)
+                if lst != rng_ or (nm and nm != lst) or ev_objs != lst:
+                    inconsistent.append(f"list {lst!r} range {rng_!r} names {nm!r} event.new {ev_objs!r}")
+
+            def cb_changed(*events):
+                notes_changed.append(len(events))
             if cfg['level'] == 'class':
                 C.param.watch(cb, ['sel'], what='objects', onlychanged=False)
+                C.param.watch(cb_changed, ['sel'], what='objects')
             else:
                 inst.param.watch(cb, ['sel'], what='objects', onlychanged=False)
+                inst.param.watch(cb_changed, ['sel'], what='objects')
         removed = []
         held = [None]
         mutators = set()
@@ -142,6 +162,8 @@ class SelectorWorld:
                     setattr(holder, 'sel', [o] if cfg['kind'] == 'ListSelector' else o)
                 except Exception as e:     # noqa
                     return viol('C18.membership', f"after {opname}: current object {o!r} rejected: {type(e).__name__}", step)
+            if unchecked:
+                return
             absent = removed[-1] if removed and removed[-1] not in exp_objs else 'never-present'
             try:
                 setattr(holder, 'sel', [absent] if cfg['kind'] == 'ListSelector' else absent)
@@ -159,6 +181,8 @@ class SelectorWorld:
             k = op['op']
             n = len(items)
             before = len(notes)
+            before_c = len(notes_changed)
+            items_before = list(items)
             mutated = True
             ret = exp_ret = None
             check_ret = False
@@ -263,6 +287,13 @@ class SelectorWorld:
                     got = getattr(holder, 'sel')
                     if got != ([o] if cfg['kind'] == 'ListSelector' else o):
                         viol('C18.membership', f"assigned {o!r}, attribute reads {got!r}", step)
+                elif k == 'assign_new' and unchecked:
+                    # an unchecked selector adds unknown values to its objects - once each, also when a value lists one twice
+                    o = fresh()
+                    setattr(holder, 'sel', [o, o] if cfg['kind'] == 'ListSelector' else o)
+                    items.append((str(o), o))
+                    held[0] = None       # the objects changed behind a held proxy's back: fetch a new one
+                    mutated = False      # not a mutation of `objects` through the proxy: no objects-notification is demanded
                 elif k == 'assign_absent':
                     mutated = False      # the per-step probe covers it
                 else:
@@ -280,6 +311,11 @@ class SelectorWorld:
                 mutators.add(k)
                 if cfg['watch'] and len(notes) - before != 1:
                     viol('C18.notify_once', f"{k}: the objects watcher was called {len(notes) - before} times", step)
+                if cfg['watch'] and inconsistent:
+                    viol('C18.views', f"{k}: when the objects watcher was notified the views disagreed: {inconsistent[0]}", step)
+                if cfg['watch'] and items != items_before and len(notes_changed) - before_c != 1:
+                    viol('C18.notify_once', f"{k}: objects changed {items_before!r} -> {items!r} but the changes-only objects watcher was called "
+                                            f"{len(notes_changed) - before_c} times", step)
             if check_ret and ret != exp_ret:
                 viol('C18.pop_returns', f"{k} returned {ret!r}, removed object is {exp_ret!r}", step)
             if not out.violations and cfg.get('hold') and held[0] is not None and mutated:
